@@ -5,7 +5,7 @@ import re
 
 import vlib
 
-PROPS = ['Rangers.Props.C09']
+PROPS = ['Rangers.Props.C09', 'Rangers.Props.C09B', 'Rangers.Props.C09C']
 DRIVERS = ['C09']
 META = dict(
     level='proof',
